@@ -106,7 +106,9 @@ def showValA : Val → String
   | .int n => toString n
   | .null => "null"
   | .text s =>
-    if s.length > 8 && s.toList.all (· == 'x') then s!"'x*{s.length}'" else "'" ++ s ++ "'"
+    match s.toList with
+    | c :: cs => if s.length > 8 && cs.all (· == c) then s!"'{c}*{s.length}'" else "'" ++ s ++ "'"
+    | [] => "''"
 
 def showRowsA (rs : List (List Val)) : String :=
   "[" ++ joinWith ";" (sortStrings (rs.map (fun r => joinWith "," (r.map showValA)))) ++ "]"
@@ -251,7 +253,7 @@ def conflictFree (progs : List (List COp)) : Bool :=
     | p :: rest => rest.all (fun q => !(touchesOf p).any (fun t => (touchesOf q).contains t)) && go rest
   go writers
 
-def budget : Nat := 60000
+def budget : Nat := 8000
 
 def judge (line : String) : String :=
   match line.splitOn " ==> " with
@@ -299,8 +301,11 @@ def judge (line : String) : String :=
                         let cat := st.base.tables
                         match findSchedule showOutA cat budget pending with
                         | none =>
-                          if searchExhaustedBudget showOutA cat budget pending then "bad not-serialisable search-budget-exhausted"
-                          else "bad not-serialisable"
+                          let pr := greedyProbe showOutA (effectFree pending) (totalEvents pending) (Spec.State.init cat) pending 0
+                          let stuck := joinWith "," (pr.2.map (fun h => s!"{h.2.txn}@{h.2.t0}-{h.2.t1}"))
+                          let why := s!" ## greedy-placed={pr.1}/{totalEvents pending} pending-heads={stuck}"
+                          if searchExhaustedBudget showOutA cat budget pending then "bad not-serialisable search-budget-exhausted" ++ why
+                          else "bad not-serialisable" ++ why
                         | some sched =>
                           if !verify showOutA cat pending sched then "bad not-serialisable verify"
                           else
